@@ -2,6 +2,7 @@ package props
 
 import (
 	"bytes"
+	"strings"
 
 	"github.com/wkhere/bcl"
 
@@ -224,4 +225,49 @@ func C20_CommentEnd() {
 	verif.Assume(eol == '\n' || eol == '\r')
 	src := "print 1 #" + string(p) + " print 2" + string([]byte{eol}) + "print 3\n"
 	c20Same(c20Compile("print 1 print 3"), c20Compile(src))
+}
+
+// C20_CommentSplit: a comment whose terminating CR or LF is the first byte of
+// a read (ParseFile) ends there as well.
+func C20_CommentSplit() {
+	eol := verif.Byte("eol")
+	verif.Assume(eol == '\n' || eol == '\r')
+	c := verif.Bytes("c", 2)
+	verif.Assume(c[0] != '\n' && c[0] != '\r' && c[1] != '\n' && c[1] != '\r')
+	src := "print 1 #" + string(c) + string([]byte{eol}) + "print 2\nprint 3\n"
+	cut := len("print 1 #") + 2
+	w := c07Whole([]byte(src))
+	f := c07File(&symio.File{Data: []byte(src), Script: []symio.Step{{N: cut}}, FileName: "file"})
+	c07Compare(w, f)
+	if w.Err == nil {
+		out, log := &symio.Writer{}, &symio.Writer{}
+		p, _ := bcl.ParseFile(&symio.File{Data: []byte(src), Script: []symio.Step{{N: cut}}, FileName: "file"}, bcl.OptOutput(out), bcl.OptLogger(log))
+		if p != nil {
+			bcl.Execute(p)
+			verif.Assert(out.String() == "1\n2\n3\n", "the statements after the comment run")
+		}
+	}
+}
+
+// C20_DeepParens: CONCRETE INSTANCES - any number of redundant parentheses.
+func C20_DeepParens() {
+	n := []int{1, 16, 255, 511, 512, 513, 600, 1000}[verif.Choice("n", 8)]
+	inner := []string{"1 + 2", "x"}[verif.Choice("inner", 2)]
+	src := "var x = 5\nprint " + strings.Repeat("(", n) + inner + strings.Repeat(")", n) + " * 2\n"
+	canon := "var x = 5\nprint (" + inner + ") * 2\n"
+	c20Same(c20Compile(canon), c20Compile(src))
+}
+
+// C20_StringSplit: three arbitrary bytes inside a string literal right after a
+// read boundary (ParseFile) reach the value as they do with Parse.
+func C20_StringSplit() {
+	p := verif.Bytes("content", 3)
+	for _, b := range p {
+		verif.Assume(b != '"' && b != '\\' && b != '\n')
+	}
+	pre := "print \"ab"
+	src := pre + string(p) + "cd\"\n"
+	w := c07Whole([]byte(src))
+	f := c07File(&symio.File{Data: []byte(src), Script: []symio.Step{{N: len(pre)}}, FileName: "file"})
+	c07Compare(w, f)
 }
